@@ -227,10 +227,12 @@ class CaseOutcome:
 
 
 def run_world(seed: Any, main: Callable[[World], Any], *, wall_timeout: float = 60.0,
-              exec_delay: float = 0.0, monitors: Optional[list] = None) -> CaseOutcome:
+              exec_delay: float = 0.0, monitors: Optional[list] = None,
+              max_virtual: Optional[float] = 200000.0) -> CaseOutcome:
     """Create a world, run ``main(world)`` to completion, tear everything down."""
     out = CaseOutcome()
     world = World(seed, exec_delay=exec_delay)
+    world.loop.max_virtual = max_virtual
     if monitors:
         for m in monitors:
             world.monitors.append(m)
@@ -240,6 +242,8 @@ def run_world(seed: Any, main: Callable[[World], Any], *, wall_timeout: float = 
             out.result = world.loop.run_main(main(world), wall_timeout=wall_timeout)
         except simloop.WallClockWatchdog:
             out.inconclusive = f'wall-clock watchdog ({wall_timeout}s)'
+        except simloop.VirtualBudgetExceeded:
+            out.inconclusive = f'virtual time budget ({max_virtual}s) exceeded: main coroutine blocked?'
         except simloop.SimDeadlock as exc:
             out.inconclusive = f'sim deadlock: {exc}'
         except Exception:  # harness failure
